@@ -14,6 +14,7 @@ SPEC = {
         "the tree iterator evaluated on the recorded cases is the byte-level PORT of treeIterator.doNext (Mkvs/Iter.v, with the ported node.Key functions of Mkvs/Key.v), proved equal to the specification iterator on every well-formed tree (doNext_refines_seek); modelled abstractly, not line by line: node cache LRU order / node database / (de)serialization (Mkvs/Lazy.v and Mkvs/Step.v model eviction and re-fetch nondeterministically; the runs exercise the real ones), tidwall/btree",
     ],
     "assumptions": [
+        "overlay Copy is exercised with both overlays alive (fork episodes: ops interleaved on the original and on the copy, commits of either side); public methods never called by any mkvs stream are listed in evidence coverage.streams[*].extra.api_coverage.never_called_by_any_mode (Tree.CommitKnown, DumpLocal, PrefetchPrefixes, RootType, SyncGet, SyncGetPrefixes, SyncIterate, Iterator.GetProof, GetProofBuilder)",
         "known findings (known_findings.json): a failing case is attributed to a cache finding only on EVIDENCE: the identical history is re-run with ample capacities (node 5000 / value 16 MB, same backend); if it fails again it is a plain violation (and its model mismatch is not exempted); only if the ample-capacity rerun is clean it is attributed to C03:node-capacity-not-above-path-depth (iff 0 < node_cap <= deepest path of the reference trie + 1) or else to C03:embedded-leaf-evicted-under-dirty-internal-node (iff small value capacity and an embedded leaf existed: VerifScan anomaly or proper-prefix key pair); every other failure is a violation",
         "keys are byte strings (every element < 256); keys and values are non-nil slices (Tree.Insert(nil, v) and Overlay.Insert(k, nil) are out of contract: nil/empty confusion)",
         "an overlay is not modified while one of its iterators is in use; reopen (Close + NewWithRoot) happens with an empty overlay stack",
